@@ -11,7 +11,9 @@ import (
 	"fmt"
 	"math/rand"
 	"os"
+	"regexp"
 	"sort"
+	"strconv"
 	"strings"
 
 	"github.com/bilibili/gengine/builder"
@@ -25,6 +27,70 @@ type Session struct {
 	Depth int           `json:"depth"`
 	Size  int           `json:"size"`
 	Prog  []interface{} `json:"prog"` // a tree enumerated by spec/LangGen.tla: rendered instead of generated
+	// C20: a laid-out text with one faulty construct (spec/LangLines.tla)
+	Lines  []string `json:"lines"`
+	Fault  int      `json:"fault"`
+	Stmt   int      `json:"stmt"`
+	Class  string   `json:"class"`
+	Always bool     `json:"always"`
+}
+
+type LObj struct {
+	I8 int8
+	In *LInner
+}
+type LInner struct{}
+
+func (o *LObj) Boom() int64   { panic("method boom") }
+func (i *LInner) Boom() int64 { panic("three level boom") }
+
+var citeRe = regexp.MustCompile(`line (\d+), column`)
+
+func runLines(s *Session) []N {
+	text := strings.Join(s.Lines, "\n") + "\n"
+	dc := context.NewDataContext()
+	dc.Add("obj", &LObj{In: &LInner{}})
+	dc.Add("arr", []int64{1, 2, 3})
+	dc.Add("m", map[string]int64{"k": 1})
+	dc.Add("ev", func(v interface{}) {})
+	dc.Add("boom", func() int64 { panic("boom") })
+	rb := builder.NewRuleBuilder(dc)
+	if err := rb.BuildRuleFromString(text); err != nil {
+		return []N{{"ev": "session", "id": s.ID}, {"ev": "lskip", "why": trunc(err.Error(), 160), "class": s.Class}}
+	}
+	eng := engine.NewGengine()
+	var err error
+	var pv interface{}
+	func() {
+		defer func() {
+			if x := recover(); x != nil {
+				pv = x
+			}
+		}()
+		err = eng.Execute(rb, true)
+	}()
+	cited := []int{}
+	msg := ""
+	if err != nil {
+		msg = err.Error()
+		seen := map[int]bool{}
+		for _, m := range citeRe.FindAllStringSubmatch(msg, -1) {
+			n, _ := strconv.Atoi(m[1])
+			if !seen[n] {
+				seen[n] = true
+				cited = append(cited, n)
+			}
+		}
+	}
+	return []N{{"ev": "session", "id": s.ID}, {"ev": "lcase", "err": err != nil, "panic": pv != nil, "cited": cited,
+		"fault": s.Fault, "stmt": s.Stmt, "class": s.Class, "always": s.Always, "msg": trunc(msg, 400), "text": text}}
+}
+
+func trunc(s string, n int) string {
+	if len(s) > n {
+		return s[:n]
+	}
+	return s
 }
 
 // ---- rendering of enumerated trees (fully parenthesised, one statement per line)
@@ -621,7 +687,12 @@ func main() {
 			os.Exit(2)
 		}
 		fmt.Fprintf(jf, "%d %d\n", i, s.ID)
-		evs := runCase(&s)
+		var evs []N
+		if s.Lines != nil {
+			evs = runLines(&s)
+		} else {
+			evs = runCase(&s)
+		}
 		var sb strings.Builder
 		for _, e := range evs {
 			b, _ := json.Marshal(e)
